@@ -299,26 +299,66 @@ impl TreeCtx {
 }
 
 
-/// C18: create an on-disk tree, drop it and re-create it on the same location at once, `n` times
+/// C18/C16: create an on-disk tree, write, flush, drop it and re-create it on the same location at once, `n` times;
+/// after every re-creation the previously acknowledged and flushed leaf and leaf count must still be there
 pub fn reopen_loop(n: usize) -> String {
     let dir = std::env::temp_dir().join(format!("zkh-reopen-{}", std::process::id()));
     let _ = std::fs::remove_dir_all(&dir);
     let cfg = format!("{{\"path\": \"{}\", \"temporary\": false}}", dir.display());
     let mut worst = std::time::Duration::ZERO;
-    let mut failures = 0usize;
+    let (mut failures, mut lost) = (0usize, 0usize);
+    let mut prev: Option<(usize, Fr, usize)> = None;
     for k in 0..n {
         let t0 = std::time::Instant::now();
         match PmtreeConfig::from_str(&cfg).ok().and_then(|c| PmTree::new(4, Fr::from(0u64), c).ok()) {
             Some(mut t) => {
-                if t.set(k % 16, Fr::from(k as u64 + 1)).is_err() {
+                worst = worst.max(t0.elapsed());
+                if let Some((i, v, cnt)) = prev {
+                    if t.get(i).ok() != Some(v) || t.leaves_set() != cnt {
+                        lost += 1;
+                        eprintln!("reopen_loop: iteration {} lost: leaf[{}] = {:?} (expected {}), leaves_set {} (expected {}), reopen took {:?}",
+                                  k, i, t.get(i).ok().map(|x| fr_hex(&x)), fr_hex(&v), t.leaves_set(), cnt, t0.elapsed());
+                    }
+                }
+                let v = Fr::from(k as u64 + 1);
+                if t.set(k % 16, v).is_err() || t.close_db_connection().is_err() {
                     failures += 1;
                 }
+                prev = Some((k % 16, v, t.leaves_set()));
                 drop(t);
             }
-            None => failures += 1,
+            None => {
+                worst = worst.max(t0.elapsed());
+                failures += 1;
+            }
         }
-        worst = worst.max(t0.elapsed());
     }
     let _ = std::fs::remove_dir_all(&dir);
-    format!("iterations={} failures={} worst_ms={}", n, failures, worst.as_millis())
+    format!("iterations={} failures={} lost_after_reopen={} worst_ms={}", n, failures, lost, worst.as_millis())
+}
+
+/// diagnostic: which error makes `MerkleTree::load` fail right after the previous instance was dropped
+pub fn probe_load(n: usize) -> String {
+    use zerokit_utils::pmtree::MerkleTree;
+    use zerokit_utils::pm_tree::sled_adapter::SledDB;
+    let dir = std::env::temp_dir().join(format!("zkh-probe-{}", std::process::id()));
+    let _ = std::fs::remove_dir_all(&dir);
+    let cfg = sled::Config::new().temporary(false).path(&dir).cache_capacity(1024 * 1024 * 1024).flush_every_ms(None).mode(sled::Mode::HighThroughput).use_compression(false);
+    let mut errs: Vec<String> = Vec::new();
+    {
+        let mut t = MerkleTree::<SledDB, PoseidonHash>::new(4, cfg.clone()).unwrap();
+        t.set(1, Fr::from(7u64)).unwrap();
+        t.close().unwrap();
+    }
+    for _ in 0..n {
+        match MerkleTree::<SledDB, PoseidonHash>::load(cfg.clone()) {
+            Ok(mut t) => {
+                t.set(2, Fr::from(9u64)).unwrap();
+                t.close().unwrap();
+            }
+            Err(e) => errs.push(format!("{}", e)),
+        }
+    }
+    let _ = std::fs::remove_dir_all(&dir);
+    format!("load_failures={} {:?}", errs.len(), errs.iter().take(3).collect::<Vec<_>>())
 }
